@@ -225,6 +225,8 @@ func registerIntrinsics(p *Program) {
 		ex.runThread(t)
 		return nil
 	})
+	reg("verifYield", func(ex *Exec, a []Value) Value { return nil })
+	reg("verifTook", func(ex *Exec, a []Value) Value { return nil })
 	reg("verifRunThreads", func(ex *Exec, a []Value) Value {
 		return BV(uint64(ex.RunThreads(concInt(ex, a[0]))), 64)
 	})
